@@ -544,7 +544,12 @@ func runC11(c *core.Ctx) {
 		wantErr := cyc || chain >= t.n
 		seen := map[string]bool{}
 		baseArgs := append([]string{}, args[:len(args)-len(t.cmd)]...)
-		for k := 0; k < procs; k++ {
+		rounds := procs
+		if strings.HasPrefix(t.label, "ladder") {
+			// (a change that makes ladders slow without making them hang would otherwise cost minutes per round)
+			rounds = 2
+		}
+		for k := 0; k < rounds; k++ {
 			// the case's own command first, then the others in rotation: every resolving command sees every case class
 			t.cmd = cmds[(i+k)%len(cmds)]
 			args = append([]string{}, baseArgs...)
